@@ -191,7 +191,7 @@ def run(ctx):
             ctx.notes.append('known finding not re-run, dumper failed closed: %s' % e)
     for i, p in enumerate(fd.HAND_PROGRAMS):
         programs.append(('hand%d.py' % i, p))
-    for i in range(ctx.pick(100, 1200)):
+    for i in range(ctx.pick(70, 1000)):
         p, kinds = fd.gen_program(ctx.rng)
         for k, v in kinds.items():
             ctx.histogram('constructs', k, v)
